@@ -315,9 +315,11 @@ fn gen_case(rng: &mut Rng) -> Case {
         Fun::Filter, Fun::Map, Fun::Any, Fun::Min, Fun::Max, Fun::MinByKey, Fun::MaxByKey, Fun::Sorted, Fun::SortedByKey, Fun::ToArray,
     ]);
     let ordering = matches!(fun, Fun::Min | Fun::Max | Fun::MinByKey | Fun::MaxByKey | Fun::Sorted | Fun::SortedByKey);
-    let n = match rng.below(6) {
+    // more than 20 rows: std's sort algorithms switch strategy there (insertion sort below)
+    let n = match rng.below(7) {
         0 => 0,
         1 => 1,
+        6 => 21 + rng.usize(70),
         _ => rng.usize(21),
     };
     // value class
@@ -630,7 +632,7 @@ impl Check for C09 {
         "exploration"
     }
     fn rule(&self) -> String {
-        "one case = (library function, table of 0-20 entries with integer / string / mixed keys or array keys and values from one \
+        "one case = (library function, table of 0-20 entries (one case in seven: 21-90) with integer / string / mixed keys or array keys and values from one \
          comparable class for the ordering functions (small ints with ties, ints+reals, strings equal or of different length) or \
          of any kind for filter/map/any, callback from a family given both as cards and as a Rust function: threshold, index \
          test, length, identity, constant, allocating wrapper, counter closure updating a captured variable, key, nested \
